@@ -274,11 +274,11 @@ def AbandonedKeysNeverPublishedStmt (cfg : Cfg) : Prop :=
     abandoned, the stored AND the published documents are exactly those from before the attempt — so they contain nothing
     the attempt generated: (1) the did:nuts Commit fails: rows and publications restored by the clean-up transaction;
     (2) the process stops before the first Commit call: publications untouched, and after the sweep either the rows are
-    restored or the version was kept (not abandoned). Missing for `AbandonedKeysNeverPublishedStmt`: that no LATER
-    operation re-introduces such a key (every later document is built from stored documents plus fresh ids — the
-    freshness invariant over `next` for published documents is not formalised), and stops after the first Commit call
-    with did:web first. The correspondence harness checks the full statement on every generated cut (oracle
-    `abandoned-key-visible`). -/
+    restored or the version was kept (not abandoned). `abandoned_keys_unpublished` extends both to all later worlds.
+    Missing for `AbandonedKeysNeverPublishedStmt`: a stop after did:web's (no-op) Commit but before did:nuts's — there
+    `stopped_operation_resolved` gives "rows restored or version kept", but that nothing was published up to the stop
+    is only proved for a stop before the first call. The correspondence harness checks the statement on every generated
+    cut (oracle `abandoned-key-visible`). -/
 theorem abandoned_keys_unpublished_partial (hfix : Fixed cfg) (hms : cfg.methods.Nodup) {w w1 : World}
     (h : Reach cfg w) {o : Op} {chs : List Change} (ht : tx1 cfg w o = .ok (w1, chs)) (order : List Method) :
     (∀ e, Clean w.dids o.subject → (commitLoop .failNuts chs order 0 w1.pub).2 = .failed e →
@@ -337,6 +337,30 @@ theorem abandoned_keys_unpublished_partial (hfix : Fixed cfg) (hms : cfg.methods
     rcases hres.1 with hl | ⟨hr, _⟩
     · exact Or.inl hl
     · exact Or.inr hr
+
+/-- **keys created for an abandoned version are never published** — for the two abandonments of (partial) above, at full
+    strength in time: after the attempt was undone (`wa`: rows and publications as before the attempt), a key that no
+    stored or published document contained before the attempt — in particular every key the attempt generated, ids being
+    fresh — is in no stored and no published document of ANY later world (`Steps`: any operations with any faults and
+    orders, ticks, sweeps, restamps; no `Clean` premise needed). -/
+theorem abandoned_keys_unpublished {w wa : World} (hd : wa.dids = w.dids) (hp : wa.pub = w.pub)
+    {k : Nat} (hk : k < wa.next) (hunused : ¬ UsedKey w k) {w' : World} (hsteps : Steps cfg wa w') :
+    ¬ UsedKey w' k := by
+  intro hu
+  have := (steps_keys hsteps).2 k hk hu
+  apply hunused
+  rcases this with ⟨r, hr, v, hv, hkv⟩ | ⟨d, c, hc, hkc⟩
+  · exact Or.inl ⟨r, hd ▸ hr, v, hv, hkv⟩
+  · exact Or.inr ⟨d, c, hp ▸ hc, hkc⟩
+
+/-- … and its premises are what `abandoned_keys_unpublished_partial` delivers: the failed attempt generated key
+    `w.next + r.id ≥ w.next`, below the new counter; nothing before used it -/
+example :
+    let cfg := cfgNow [.nuts, .web]
+    let w := (stepOp cfg {} (.create "s") [.nuts, .web] .none).1
+    let wa := (stepOp cfg w (.addKey "s") [.web, .nuts] .failNuts).1
+    wa.dids = w.dids ∧ w.next = 2 ∧ wa.next = 6 ∧ wa.keys = [0, 1, 2, 3] ∧
+    (∀ r ∈ w.dids, ∀ v ∈ r.vers, 2 ∉ v.c.vms ∧ 3 ∉ v.c.vms) := by decide
 
 /-- **a repeated attempt can succeed**: whether the first transaction of an operation succeeds depends on the rows only —
     so after `failed_commit_restores` (rows restored) the same operation is enabled exactly as it was -/
